@@ -47,6 +47,10 @@ func PlanCases(prop, tier string, seed int64) (cases []*Case, rule []string) {
 		add(n(150, 2500), "dictionary enumeration with key ranges and prefix automata, Contains", func() *Case { return g.DictCase() })
 	case "C16":
 		add(n(120, 2000), "CollectionStats of every field of built, merged and reloaded segments", func() *Case { return g.StatsCase() })
+	case "C11":
+		add(n(60, 800), "persist every built, merged and reloaded segment of a random merge tree; the model parses the footer of the real bytes and recomputes the CRC-32; loaded segments are persisted again", func() *Case { return g.FooterCase() })
+	case "C17":
+		add(n(70, 900), "2-4 built segments with random deletions: flat merge, two left bracketings (deletions inside / translated through DocumentNumbers), right bracketing, single-segment merges; full dumps of all variants", func() *Case { return g.AssocCase() })
 	case "C18":
 		add(n(150, 2500), "DocsMatchingTerms over mixed, repeated, unknown-field and unknown-term lists", func() *Case { return g.DocsMatchingCase() })
 	default:
@@ -92,6 +96,10 @@ func NontrivialTags(prop string) map[string]bool {
 		set("merged", "loaded", "built")
 	case "C16":
 		set("merge", "drops_and_survivors")
+	case "C11":
+		set("repersist_loaded")
+	case "C17":
+		set("three_inputs_drop_nonlast", "drops")
 	case "C18":
 		set("field_switch_unknown", "merged")
 	}
@@ -100,5 +108,25 @@ func NontrivialTags(prop string) map[string]bool {
 
 // PostChecks are Go-side checks of one case that the flat transcript does not carry.
 func PostChecks(prop string, c *Case, in *Interp, transcript W) []GoCheck {
-	return nil
+	var fails []GoCheck
+	for _, grp := range c.Equal {
+		for _, k := range grp[1:] {
+			if !eqW(in.Outs[grp[0]], in.Outs[k]) {
+				fails = append(fails, GoCheck{prop, fmt.Sprintf("ops %d and %d must give identical answers but differ", grp[0], k)})
+			}
+		}
+	}
+	return fails
+}
+
+func eqW(a, b W) bool {
+	if len(a) != len(b) {
+		return false
+	}
+	for i := range a {
+		if a[i] != b[i] {
+			return false
+		}
+	}
+	return true
 }
